@@ -530,7 +530,7 @@ def run_shared(ctx, jinja2, only=None):
     # both caches composed: every environment also has a small template cache and auto_reload (same option set, so the
     # expected text does not depend on which cache answered)
     hist4 = [list(h) for n in range(1, 5) for h in itertools.product(ops_alpha, repeat=n)]
-    tc_cases = [(p, h) for p in ((0, 0), (1, 1)) for h in hist4 if sum(o.startswith("l:") for o in h) >= 2]
+    tc_cases = [(p, h) for p in (((0, 0),) if ctx.tier == "quick" else ((0, 0), (1, 1))) for h in hist4 if sum(o.startswith("l:") for o in h) >= 2]
     cases += tc_cases
     backend += ["tcache"] * len(tc_cases)
     for bk in ("mem", "fspat", "overlay"):
@@ -731,11 +731,12 @@ import os, re, typing, weakref, pickle, marshal, tempfile, functools, collection
 import random, logging, importlib.util, zipimport, hashlib, types, numbers, operator, keyword, ast, math, errno, fnmatch, stat, io
 import markupsafe
 maj, mnr, cachedir, real_src, marker = int(sys.argv[1]), int(sys.argv[2]), sys.argv[3], sys.argv[4], sys.argv[5]
+mic = int(sys.argv[6])
 class VI(tuple):
     major = property(lambda s: s[0]); minor = property(lambda s: s[1]); micro = property(lambda s: s[2])
     releaselevel = property(lambda s: s[3]); serial = property(lambda s: s[4])
-sys.version_info = VI((maj, mnr, 0, "final", 0))
-sys.hexversion = (maj << 24) | (mnr << 16) | 0xF0
+sys.version_info = VI((maj, mnr, mic, "final", 0))
+sys.hexversion = (maj << 24) | (mnr << 16) | (mic << 8) | 0xF0
 import jinja2
 from jinja2.bccache import FileSystemBytecodeCache, Bucket, bc_magic
 env = jinja2.Environment()
@@ -754,6 +755,7 @@ def run_foreign(ctx, jinja2, table, only=None):
     from jinja2.bccache import FileSystemBytecodeCache, bc_magic
     real_src, marker = "current source {{ x }}", "BYTECODE-OF-OTHER-INTERPRETER"
     here = (sys.version_info[0], sys.version_info[1])
+    mic_here = sys.version_info[2]
     versions = [here, (3, here[1] - 1), (3, here[1] + 1), (3, here[1] + 2), (3, 0), (3, 255 if here[1] != 255 else 254),
                 (2, here[1]), (4, here[1]), (4, 0), (2, 7)]
     if ctx.tier == "quick":
@@ -764,7 +766,11 @@ def run_foreign(ctx, jinja2, table, only=None):
             continue
         shutil.rmtree(d, ignore_errors=True)
         os.makedirs(d)
-        p = subprocess.run([lib.PY, "-c", FOREIGN_CHILD, str(maj), str(mnr), d, real_src, marker], capture_output=True, text=True,
+        # the other interpreter differs in major / minor ONLY: micro, release level and serial are this interpreter's (a magic
+        # built from any other field of sys.version_info would then coincide); the own-version control also runs with
+        # another micro, which must still hit
+        mic = mic_here if (maj, mnr) != here or only is not None else mic_here + 1
+        p = subprocess.run([lib.PY, "-c", FOREIGN_CHILD, str(maj), str(mnr), d, real_src, marker, str(mic)], capture_output=True, text=True,
                            env=lib.IMPL_ENV, timeout=120)
         mg = [l for l in p.stdout.splitlines() if l.startswith("MAGIC ")]
         case = {"kind": "foreign", "version": [maj, mnr]}
@@ -962,6 +968,30 @@ def run_aliases(ctx, jinja2, only=None):
                                "C27:names-that-compile-differently-share-an-entry")
                 else:
                     ctx.validated()
+    # (name, filename) pairs that the key helper cannot tell apart: it hashes name + "|" + filename
+    if only is None or only.get("loader") == "collision":
+        table = {"a.txt": ("{{ x }}", "b.html|c", None), "a.txt|b.html": ("{{ x }}", "c", None)}
+        for order in (["a.txt", "a.txt|b.html"], ["a.txt|b.html", "a.txt"]):
+            shutil.rmtree(base, ignore_errors=True)
+            os.makedirs(base + "/cache")
+            loader = jinja2.FunctionLoader(lambda n: table.get(n))
+
+            def mk(cache):
+                return jinja2.Environment(loader=loader, autoescape=jinja2.select_autoescape(["html"]), cache_size=0,
+                                          bytecode_cache=FileSystemBytecodeCache(base + "/cache") if cache else None)
+            env, ref = mk(True), mk(False)
+            outs = [env.get_template(n).render(x="<b>") for n in order]
+            wants = [ref.get_template(n).render(x="<b>") for n in order]
+            case = {"kind": "aliases", "loader": "collision", "order": order, "rendered": outs}
+            ctx.case(key=("collision", tuple(order)))
+            ctx.count("aliases_key_collision")
+            if only is not None:
+                print("with cache:", outs, "without:", wants)
+            if outs != wants:
+                ctx.reject(case, f"templates {order} (FunctionLoader filenames 'b.html|c' / 'c', same source) share one cache key: rendered {outs}, "
+                                 f"without the cache {wants}", "C27:key-collision-name-filename-separator")
+            else:
+                ctx.validated()
     shutil.rmtree(base, ignore_errors=True)
 
 
